@@ -67,6 +67,18 @@ Peak(net, ch, sliced, seq) ==
         tot0 == SumOver(Leaves(net), LAMBDA t : Size(net, {t}, Sl))
     IN  PeakFold(net, ch, Sl, seq, 1, tot0, tot0)
 
+(* canonical order in which the implementation keeps sliced indices: output *)
+(* indices first, then by name (net.rank[ix] = rank of the index's label)    *)
+BeforeN(net, a, b) == LET ia == ~InOut(net, a.ind)  ib == ~InOut(net, b.ind) IN
+                      IF ia # ib THEN ib ELSE net.rank[a.ind] < net.rank[b.ind]
+RECURSIVE InsertCanonN(_, _, _)
+InsertCanonN(net, s, x) == IF s = <<>> THEN <<x>>
+                           ELSE IF BeforeN(net, x, Head(s)) THEN <<x>> \o s
+                           ELSE <<Head(s)>> \o InsertCanonN(net, Tail(s), x)
+IsCanonN(net, s) == \A a, b \in DOMAIN s : a < b => BeforeN(net, s[a], s[b])
+SlicedAfterRemoveN(net, s, ix, v) == InsertCanonN(net, s, [ind |-> ix, project |-> v])
+SlicedAfterRestore(s, ix)         == SelectSeq(s, LAMBDA e : e.ind # ix)
+
 (* slice -> fix map for value semantics: projected indices are held fixed *)
 ProjFix(sliced) ==
     LET P == {k \in DOMAIN sliced : sliced[k].project # -1}
